@@ -30,8 +30,9 @@ EXTENDS Semantics      \* JSON values: JNull JBool JNum JInt JStr JArr JObj P
 \* (the same input exceeded the bound twice) | "timeout-once" (exceeded once and was not run again: reading rule of
 \* DESIGN 6.0, "only reported after the same input timed out twice" - neither a regular outcome nor a violation)
 Outcome(r)   == r.outcome \in {"files", "error"}
-BoundedMs    == 20000
-InTime(r)    == r.ms <= BoundedMs
+BoundedMs    == 20000       \* CPU time of the process running the case (r.ms), so that the verdict does not depend on the load of the machine
+Slack        == 1000        \* sampling period of the watchdog
+InTime(r)    == r.ms <= BoundedMs + Slack
 C04Holds(r)  == Outcome(r) /\ InTime(r)
 Violated(r)  == (IF r.outcome \in {"panic", "crash"} THEN {"panic"} ELSE {})
                 \cup (IF r.outcome = "timeout" \/ (r.outcome \in {"files", "error"} /\ ~InTime(r)) THEN {"hang"} ELSE {})
